@@ -120,6 +120,11 @@ MCArgs(name, h, dep) ==
          {[obj |-> "a", other |-> B] : B \in EqOthers(AsCurve(h["a"]))}
          \cup {[obj |-> "a", other |-> NotCurve], [obj |-> "a", other |-> AsCurve(h["a"])]}
     [] name = "CvDerivate" -> {[obj |-> "a"]}
+    [] name = "IntegrateFn" ->
+         {[obj |-> "a", k |-> k, method |-> m, nnodes |-> n] :
+             m \in {"closed-newton-cotes", "open-newton-cotes", "chebyshev", "gauss-legendre", "default"},
+             n \in 2..4, k \in 0..3} \ {x \in [obj : {"a"}, k : 0..3, method : {"closed-newton-cotes", "open-newton-cotes", "chebyshev", "gauss-legendre", "default"}, nnodes : 2..4] :
+                                            (x.k >= x.nnodes /\ x.method # "gauss-legendre") \/ (x.method = "default" /\ x.nnodes # 2)}
     [] name = "CvIntegrate" -> IF h["a"].W = <<>> THEN {[obj |-> "a"]} ELSE {}
     [] name = "CvFitCurve" ->
          LET V == U IN
